@@ -1,5 +1,7 @@
 """Block padding: PKCS#7 (RFC 5652 6.3), ANSI X.923, ISO/IEC 7816-4."""
 
+SIG = {}
+
 
 def pad(data, block_size, style):
     n = block_size - len(data) % block_size
@@ -8,3 +10,20 @@ def pad(data, block_size, style):
     if style == 'x923':
         return data + rep(b'\x00', n - 1) + bytes([n])
     return data + b'\x80' + rep(b'\x00', n - 1)
+
+
+def padded_ok(p, block_size, style):
+    """p is a padded message of the style: non-empty, whole blocks, and the last block ends with a padding
+    of 1..block_size bytes of the form the style defines"""
+    if len(p) == 0 or len(p) % block_size != 0:
+        return False
+    if style == 'pkcs7':
+        k = p[len(p) - 1]
+        return 1 <= k and k <= block_size and k <= len(p) and p[len(p) - k:] == rep(bytes([k]), k)
+    if style == 'x923':
+        k = p[len(p) - 1]
+        return 1 <= k and k <= block_size and k <= len(p) and p[len(p) - k:len(p) - 1] == rep(b'\x00', k - 1)
+    if style == 'iso7816':
+        i = p.rfind(b'\x80')
+        return i >= 0 and len(p) - i <= block_size and p[i + 1:] == rep(b'\x00', len(p) - i - 1)
+    return False
